@@ -83,6 +83,9 @@ PROPS["C01"] = {
         T("SV.election_safety_sv", "a cluster of stepped servers, each an arbitrary run (any start image, any messages / snapshots / restarts, any write failure or crash ordinal): two candidates holding granted answers of one term from quorums of one voter configuration, or of two configurations one voter apart, are the same candidate"),
         T("SV.run_one_vote_per_term", "per server, along every run: two granted answers of one term name one candidate"),
         T("RP.election_safety", "cluster model (any size, fixed membership): two election wins in one term are by the same server, over all schedules, message loss/duplication/delay and crashes between the vote writes", "partial"),
+        T("SV.vote_refines_core", "the bridge between the two models for RequestVote: for every durable image, volatile state, request and failing write of persistVote, the handler that is stepped against raft.go leaves the durable term and vote record exactly as the cluster model's RP.handleVote leaves its node (for the stage that failing write corresponds to) and grants iff it grants - whenever the request passes the two guards the cluster model lacks (sender a voter of the known configuration, no other leader known)"),
+        T("SV.vote_refused_is_stutter", "and a request stopped by one of those two guards changes nothing at all: a stutter step of the cluster model, whose refusals are inert"),
+        T("SV.campaign_vote_fault_no_leader", "a candidate whose vote for itself could not be persisted (either write of persistVote failing) does not become leader in that pass: it stays a candidate and counts nobody's answer"),
         T("MP.vote_once_per_term", "one server: all grants of a term name one candidate, for every request sequence, failure plan and crash point"),
         T("OV.same_config_quorums_intersect", "two quorums (n/2+1) of one configuration intersect"),
         T("OV.adjacent_config_majorities_intersect", "quorums of configurations differing by one voter intersect"),
@@ -139,6 +142,8 @@ PROPS["C06"] = {
         T("MP.vote_once_per_term", "all grants of a term name one candidate: every request sequence, every failure plan, every crash point between the three stable writes"),
         T("SV.run_one_vote_per_term", "the stepped model of the real handlers, started by NewRaft on ANY durable image: along every sequence of RequestVote / RequestPreVote / AppendEntries / InstallSnapshot / TimeoutNow messages, role changes, restarts and restarts with a damaged snapshot, with a write failure or a crash at any write ordinal of any handler, two granted answers of one term name one candidate"),
         T("SV.run_term_monotone", "along every such run the durable term never decreases and a running server's in-memory term always equals its durable term"),
+        T("SV.vote_refines_core", "the stepped RequestVote handler does to the durable term and vote record exactly what the cluster model's RP.handleVote does, for every failing vote write (stage 0 / 1 / 2), and grants iff it grants - the bridge from the model tied to the code to the model the global theorems are about"),
+        T("SV.campaign_vote_fault_no_leader", "a candidate whose own vote could not be persisted does not become leader in that pass"),
         T("SV.grant_step", "a reported grant is on disk and binding when it is reported, and agrees with every grant that was binding before"),
         T("SV.step_inv", "one event of any kind keeps every earlier grant binding: the durable term rose above it, or it is that term and the vote record still names the candidate - for every prefix of every handler's writes"),
         T("SV.vote_grant_sound", "the stepped model's RequestVote, every failure and crash ordinal: a granted answer implies term >= own, candidate at least as up to date as the last entry, sender a voter of the known configuration, no other known leader (unless transfer), all planned writes performed and the durable vote record = (this term, this candidate)"),
